@@ -1,14 +1,20 @@
 // C20 — contract execution is metered, atomic and crash-free for arbitrary programs.
 //
 // Bounded exhaustive enumeration of EVM programs x entry configurations on the REAL interpreter
-// (vm/evm over a real state.StateDB), every case executed twice from equal pre-states (once observed through
-// a probing StateDB + tracer, once on the plain production path) and judged by the oracles in exec.go.
+// (vm/evm over a real state.StateDB), every case executed twice from equal pre-states (once on a fresh EVM
+// observed through a probing StateDB + tracer, once on the plain production path on a long-lived EVM that is
+// re-used after Reset() like the application's) and judged by the oracles in exec.go. The program families
+// ("layers") are defined in layers.go, the fixed world and the explicit world dump in world.go.
 //
 // Process structure: the check binary is a supervisor that re-executes itself as W single-threaded worker
 // processes (address-space limited), because the property includes "does not crash the node": a Go fatal error
 // (out of memory, stack exhaustion) cannot be recovered in-process. A worker publishes the case it is about to
-// run in a shared-memory slot; if it dies, the supervisor reports that case as a violation and restarts the
-// worker behind it.
+// run in a shared-memory slot. If it dies, the supervisor runs that case alone in a fresh process (twice): only
+// if that dies too is the case reported as a violation (a worker can also die because the machine ran out of
+// memory); the worker is restarted from its last statistics snapshot and skips the judged case.
+//
+// Environment knobs: VERIF_WORKERS (number of worker processes, default NumCPU); development only: C20_ONLY
+// (comma list of layer names; the run is then reported as capped), C20_PROF, C20_MEMDBG.
 package main
 
 import (
@@ -814,7 +820,7 @@ func main() {
 	r.Set("distinct_behaviour_signatures", len(sigs))
 	r.Set("violation_cases", total)
 	r.Set("workers", nw)
-	r.Set("rule", "every program of every layer x every configuration of that layer is executed on the real EVM twice from equal pre-states (observed run on a fresh EVM with probing StateDB + tracer; plain run on a long-lived EVM re-used after Reset()+SetToken() as app/state_transition.go does; a third, fresh plain run only to classify a difference); "+
+	r.Set("rule", "every program of every layer x every configuration of that layer is executed on the real EVM twice from equal pre-states (observed run on a fresh EVM with probing StateDB + tracer; plain run on a long-lived EVM re-used after Reset()+SetToken() as app/state_transition.go does; further runs only to classify a difference); "+
 		"oracles: no panic / no process death (confirmed by running the case alone in a fresh process); interpreter steps <= gas + gas/256 + 2000, steps inside UTXO change-rate queries (counted apart) <= gas + 2000; gas left (+ fee refund the application adds) <= gas supplied; both runs identical in return data, gas, error, fee refunds, balance records, "+
 		"explicit world delta and state root; a failing outermost frame leaves an empty delta and the pre-state root; every nested frame that fails is reverted and the world after RevertToSnapshot equals the world at its Snapshot; "+
 		"non-trivial = behaviour signatures (error class, changed field classes, frames, return size, reverts, balance records) other than an immediate stack underflow / invalid opcode")
